@@ -277,6 +277,10 @@ def run (E : Env τ ω) (fuel : Nat) (s : St τ ω) : Outcome × St τ ω :=
       | .raised x => (.raised x, s'')
       | e => (.returned e, s'')
 
+/-- **Region of finding D03a.** A send of the abort sweep raised (so the sweep stopped there). -/
+def sweepRaised (E : Env τ ω) (fuel : Nat) (s : St τ ω) : Bool :=
+  (finalize E (runLoop E fuel s).2).1.isSome
+
 /-! ## the concrete environment of the driver: scripted taskers around the base runner table -/
 
 /-- one scripted action of a test tasker, performed after the base table handled the control -/
